@@ -162,3 +162,48 @@ func l3(k int, narrow bool) {
 
 func L3Two()   { l3(2, false) }
 func L3Three() { l3(3, true) }
+
+// L3MixedPaths: one process, key A signed alternately through the single and the batch endpoint
+// (single, batch, single / batch, single, batch) with arbitrary epochs: whatever the service keeps
+// in memory between requests, no two released attestations conflict.
+func L3MixedPaths() {
+	ctx := context.Background()
+	log := &stubs.Log{}
+	in := startInstance(ctx, vsym.TempDir("A"), log)
+	creds := &checker.Credentials{Client: "c", RequestID: "r"}
+	first := vsym.Choose("first-endpoint", 2)
+	var rel []released
+	for step := 0; step < 3; step++ {
+		tag := fmt.Sprintf("_%d", step)
+		s, t := vsym.Uint64("s"+tag), vsym.Uint64("t"+tag)
+		vsym.Assume(vsym.And(s < 1<<62, t < 1<<62))
+		if (step+first)%2 == 0 {
+			res, _ := in.signer.SignBeaconAttestation(ctx, creds, "W/a", nil, fixedAtt(s, t))
+			if res == core.ResultSucceeded {
+				rel = append(rel, released{s, t})
+			}
+		} else {
+			res, _ := in.signer.SignBeaconAttestations(ctx, creds, []string{"W/a", "W/b"}, [][]byte{nil, nil},
+				[]*rules.SignBeaconAttestationData{fixedAtt(s, t), fixedData(uint64(10*step+1), uint64(10*step+2))})
+			if len(res) == 2 && res[0] == core.ResultSucceeded {
+				rel = append(rel, released{s, t})
+			}
+		}
+	}
+	if len(rel) == 3 {
+		vsym.Reach("three-released")
+	}
+	for i := range rel {
+		for j := i + 1; j < len(rel); j++ {
+			vsym.Assert("L3-no-two-released-conflict", vsym.Not(conflict(rel[i].s, rel[i].t, rel[j].s, rel[j].t, true)))
+		}
+	}
+}
+
+// fixedAtt: a well-formed attestation with the given (possibly symbolic) epochs and concrete other fields.
+func fixedAtt(s, t uint64) *rules.SignBeaconAttestationData {
+	dom := make([]byte, 32)
+	dom[0] = 1
+	return &rules.SignBeaconAttestationData{Domain: dom, Slot: 7, CommitteeIndex: 3, BeaconBlockRoot: root,
+		Source: &rules.Checkpoint{Epoch: s, Root: root}, Target: &rules.Checkpoint{Epoch: t, Root: root}}
+}
